@@ -41,6 +41,7 @@ ids('C09 C10', {601: 'ExactSizeIterator::len() wrong', 602: 'size_hint() wrong',
                 605: 'a stored entry was not yielded exactly once', 606: 'iterator not fused / not empty after the end', 607: 'second traversal differs',
                 608: 'cloned iterator diverges', 609: 'count() wrong', 610: 'write through iter_mut/values_mut lost',
                 611: 'yielded pair is not a stored association'})
+ids('C09 C10', {621: 'nth() differs from stepping', 622: 'last() differs from stepping', 623: 'count() differs from stepping', 624: 'fold()/for_each() differ from stepping', 625: 'iterator state after a provided method differs from stepping'})
 ids('C10', {612: 'container not empty after drain', 613: 'container not reusable after drain'})
 ids('C02 C10', {614: 'elements not released exactly once when a consuming iterator is dropped / excess release when forgotten'})
 ids('C07', {701: 'Set::insert return', 702: 'Set::replace return', 703: 'Set::contains', 704: 'Set::get', 705: 'Set::remove return',
@@ -107,6 +108,9 @@ fam('c01_lookup c01_retain c01_clear c01_drain_all', 'g_map', [0, 1, 2, 3], [4, 
 
 fam('c09_iter c09_keys c09_values c09_iter_mut c09_values_mut c09_set_iter', 'g_iter', [0, 1, 2, 3], [4, 5], dprofiles=('rel', 'dbg'))
 fam('c09_defaults', 'g_iter', [0, 2], [])
+fam('c09_provided c09_set_provided c10_set_provided', 'g_iter', [1, 2, 3], [4])
+# second parameter: 0 into_iter, 1 into_keys, 2 into_values, 3 drain
+fam('c10_provided', 'g_iter', [(1, 0), (2, 0), (3, 0), (1, 1), (2, 1), (1, 2), (2, 2)], [(1, 3), (2, 3), (3, 1), (3, 2), (4, 0)], unwind=lambda c: c[0] + 2)
 fam('c10_into_iter c10_into_keys c10_into_values c10_set_into_iter c10_drain c10_set_drain', 'g_iter', [0, 1, 2, 3], [4, 5], dprofiles=('rel', 'dbg'))
 
 fam('c07_insert c07_replace', 'g_set', [1, 2, 3], [4, 5], dprofiles=('rel', 'dbg'))
@@ -146,7 +150,7 @@ fam('c13_disjoint', 'g_misc', [(0, 0), (2, 0), (0, 2), (1, 1), (2, 1), (1, 2), (
 fam('c13_disjoint_tok', 'g_misc', [1, 2, 3], [4, 5])
 fam('c15_clone c15_set_clone c16_from_array c16_set_from_array', 'g_misc', [0, 1, 2, 3], [4, 5], dprofiles=('rel', 'dbg'))
 fam('c15_clone_nodrop', 'g_misc', [1, 2, 3], [4, 5], dprofiles=('rel', 'dbg'))
-fam('c16_from_iter', 'g_misc', [(0, 1), (1, 2), (2, 3), (3, 4), (2, 4)], [(3, 5), (4, 5)], dprofiles=('rel', 'dbg'))
+fam('c16_from_iter', 'g_misc', [(0, 1), (1, 2), (2, 3), (3, 4), (2, 4)], [(3, 5), (4, 5)], profiles=('rel', 'dbg'))
 fam('c16_set_from', 'g_misc', [(1, 2), (2, 3), (3, 4)], [(4, 5)])
 fam('c18_insert_unchecked', 'g_misc', [1, 2, 3], [4, 5], profiles=('rel', 'dbg'))
 fam('c18_disjoint_unchecked', 'g_misc', [(2, 0), (1, 1), (2, 2), (3, 2), (2, 3), (3, 3)], [(4, 3), (3, 4), (4, 4)], profiles=('rel', 'dbg'))
@@ -157,10 +161,11 @@ fam('c17_disjoint', 'g_liar', [(1, 2), (2, 2), (3, 2), (2, 3), (3, 3)], [(4, 3),
 fam('c17_set', 'g_liar', [(1, 1), (2, 1), (1, 2)], [(2, 2), (3, 2)])   # (2,2): 8 min
 
 fam('c06_refs c06_refs_set', 'g_map', [1, 2, 3], [4])
+fam('c01_hist', 'g_map', [(2, 2)], [(2, 3), (3, 3), (3, 4)], unwind=lambda c: c[0] + 2)
 
 # second/third parameter W selects the rendering ({} / {:?} / {:#?}) or the iterator kind: one per obligation
 fam('c06_fmt_specs', 'g_fmt', [(1, w) for w in range(5)], [(2, w) for w in range(5)], lto=True, unwind=lambda c: 8)
-fam('c19_map c19_set', 'g_fmt', [(n, w) for n in (0, 1, 2) for w in (0, 1, 2)], [(3, w) for w in (0, 1, 2)], lto=True, unwind=lambda c: 8)
+fam('c19_map c19_set', 'g_fmt', [(n, w) for n in (0, 1, 2) for w in (0, 1, 2)] + [(1, 3), (2, 3)], [(3, w) for w in (0, 1, 2, 3)], lto=True, unwind=lambda c: 8)   # w: 0 {} 1 {:?} 2 {:#?} 3 {:#}
 fam('c19_map_iters', 'g_fmt', [(1, w) for w in range(9)], [(n, w) for n in (2, 3) for w in range(9)], lto=True, unwind=lambda c: 8)
 fam('c19_set_iters', 'g_fmt', [(1, 1, w) for w in range(3)], [(1, 1, 3)] + [(n, m, w) for (n, m) in ((2, 1), (2, 2)) for w in range(4)], lto=True, unwind=lambda c: 8)   # w=3 (symmetric_difference): 6 min -> thorough
 
@@ -194,9 +199,10 @@ PROPS = {
     'C08': dict(fams='c08_union c08_intersection c08_difference c08_symdiff c08_union_fold c08_intersection_fold c08_difference_fold c08_symdiff_fold c08_sub c08_difference_ref c08_predicates'),
     'C14': dict(fams='c14_map c14_set'),
     'C07': dict(fams='c07_insert c07_replace c07_lookup c07_remove c07_take c07_retain c07_clear c07_drain c07_extend c07_extend_ref'),
-    'C09': dict(fams='c09_iter c09_keys c09_values c09_iter_mut c09_values_mut c09_set_iter c09_defaults'),
-    'C10': dict(fams='c10_into_iter c10_into_keys c10_into_values c10_set_into_iter c10_drain c10_set_drain'),
-    'C01': dict(fams='c01_insert c01_insert_kv c01_checked_insert c01_lookup c01_index c01_remove c01_remove_entry c01_retain c01_clear c01_drain_all'),
+    'C09': dict(fams='c09_iter c09_keys c09_values c09_iter_mut c09_values_mut c09_set_iter c09_defaults c09_provided c09_set_provided'),
+    'C10': dict(fams='c10_into_iter c10_into_keys c10_into_values c10_set_into_iter c10_drain c10_set_drain c10_provided c10_set_provided'),
+    'C01': dict(fams='c01_insert c01_insert_kv c01_checked_insert c01_lookup c01_index c01_remove c01_remove_entry c01_retain c01_clear c01_drain_all c01_hist '
+                     'c03_insert c03_insert_kv c03_checked_full c03_replace_full'),   # a rejected insertion leaves exactly the previous associations
 }
 
 
